@@ -98,7 +98,7 @@ def decode_op(t):
     if kind in ('dispatch', 'deferred'):
         return [kind, d[0], (p >> 4) % 1440]       # perm selector: odd -> injected order
     if kind == 'arm':
-        return ['arm', d[0] % 6, d[1] % 6, d[2] % 3]
+        return ['arm', d[0] % 6, d[1] % 6, d[2] % 4]
     return ['gc']
 
 
@@ -164,7 +164,10 @@ class Run:
         receiver = None
         script = self.scripts.pop(cls_ix, None)
         if script is not None:
-            self.kill(script[0], script[1], from_callback=cls_ix)
+            if script[1] == 3:
+                self.clear_all(from_callback=cls_ix)
+            else:
+                self.kill(script[0], script[1], from_callback=cls_ix)
 
     def kill(self, j, how, from_callback=None):
         """make handler j disappear (its last strong reference goes away)."""
@@ -199,6 +202,32 @@ class Run:
                 self.viol('handler_kept_alive_after_last_reference_dropped', handler=j,
                           referrers=[type(r).__name__ for r in gc.get_referrers(self.weak[j]())][:6])
         return True
+
+    def clear_all(self, from_callback):
+        """a callback resets the dispatcher / world from inside the dispatch, then every other handler loses its
+        last reference: none of them may be called any more (certainly not with a missing receiver)."""
+        self.flags['clear_from_callback'] += 1
+        was_alive = [self.alive(j) for j in range(self.n)]
+        try:
+            self.d.clear()
+        except Exception as exc:
+            self.viol('clear_raised', exception=repr(exc))
+        for j in range(self.n):
+            if not was_alive[j]:
+                continue
+            if self.frame is not None:
+                self.frame['killed'].add(j)
+                if self.registered[j] and self.frame['ev'] in self.classes[j].evs and j not in self.frame['calls']:
+                    self.flags['died_mid_dispatch_before_its_turn'] += 1
+            self.registered[j] = False
+            self.entity[j] = None
+            if j != from_callback:
+                self.strong[j] = None
+        gc.collect()
+        for j in range(self.n):
+            if j != from_callback and self.weak[j] is not None and self.weak[j]() is not None:
+                self.viol('handler_kept_alive_after_last_reference_dropped', handler=j, after='clear()')
+        self.strong[from_callback] = None
 
     # ---- ops ----------------------------------------------------------------------------------------
     def op_add(self, i):
